@@ -10,6 +10,7 @@ GEN = {
     "FromDict.v": "fromdict",
     "Formulas.v": "chains",
     "SimWrites.v": "simwrites",
+    "BinUnits.v": "binunits",
 }
 
 
